@@ -570,18 +570,20 @@ Fixpoint cstr_checked (b : bytes) : res bytes :=
 
 (** ------------------------------------------------------------------ the libc contract *)
 (** What the proofs assume about the C library conversions (external functions): their
-    outputs — for the arguments print_number passes: an int, a finite double — are C strings
+    outputs — for the arguments print_number passes: an int, a finite IEEE binary64 double — are C strings
     (no zero byte) that fit the 26-byte scratch buffer of print_number with its terminator. *)
 Definition int_range (z : Z) : bool := (c_INT_MIN <=? z) && (z <=? c_INT_MAX).
-(* valueint is a C int in every node *)
-Fixpoint ints_ok (n : node) : bool :=
-  match n with Node _ _ vi _ _ ch => int_range vi && forallb ints_ok ch end.
+(* a double is an IEEE binary64 value: SpecFloat's own validity predicate at precision 53, emax 1024 *)
+Definition valid_dbl (d : dbl) : bool := valid_binary prec emax d.
+(* the scalar fields of every node are C values: valueint an int, valuedouble a double *)
+Fixpoint fields_ok (n : node) : bool :=
+  match n with Node _ _ vi vd _ ch => int_range vi && valid_dbl vd && forallb fields_ok ch end.
 
 Record LibcPrintSpec (fmt_d : Z -> bytes) (fmt_g15 fmt_g17 : dbl -> bytes) : Prop := {
   lps_d_zero_free : forall z, int_range z = true -> Forall (fun c => c <> 0) (fmt_d z);
-  lps_g15_zero_free : forall d, is_finite d = true -> Forall (fun c => c <> 0) (fmt_g15 d);
-  lps_g17_zero_free : forall d, is_finite d = true -> Forall (fun c => c <> 0) (fmt_g17 d);
+  lps_g15_zero_free : forall d, is_finite d = true -> valid_dbl d = true -> Forall (fun c => c <> 0) (fmt_g15 d);
+  lps_g17_zero_free : forall d, is_finite d = true -> valid_dbl d = true -> Forall (fun c => c <> 0) (fmt_g17 d);
   lps_d_len : forall z, int_range z = true -> zlen (fmt_d z) <= c_NUMBER_BUFFER_SIZE - 1;
-  lps_g15_len : forall d, is_finite d = true -> zlen (fmt_g15 d) <= c_NUMBER_BUFFER_SIZE - 1;
-  lps_g17_len : forall d, is_finite d = true -> zlen (fmt_g17 d) <= c_NUMBER_BUFFER_SIZE - 1
+  lps_g15_len : forall d, is_finite d = true -> valid_dbl d = true -> zlen (fmt_g15 d) <= c_NUMBER_BUFFER_SIZE - 1;
+  lps_g17_len : forall d, is_finite d = true -> valid_dbl d = true -> zlen (fmt_g17 d) <= c_NUMBER_BUFFER_SIZE - 1
 }.
